@@ -45,6 +45,16 @@ CLAIMED = {
     note=TB + "Partial: stage 1 only (traces without cudaEventRecord / cudaStreamWaitEvent / Event Sync records, which the model does not yet cover); forwardness of kernel-loop edges and acyclicity are certified per run by proved checkers rather than proved for all inputs; the queue-length series (C14) and the links (C02) are inputs.",
     technique="Lean 4 proof (state-machine invariants, certificate-checker soundness) + exact model/implementation graph correspondence",
     design="7/C08"),
+  "C09": dict(
+    text="networkx.dag_longest_path is validated per run by a checker whose soundness is proved in Lean: pathWeight_le_potential / C09_potential_bounds_all_paths (a non-negative potential with d(src)+w <= d(dst) on every edge bounds the weight of EVERY path), C09_reported_path_is_maximum (a reported path meeting the bound is a maximum-weight path), C09_path_le_makespan (with weights at most the time difference of their endpoints a path weighs at most the time from its first to its last node), C09_path_edges (one graph edge per consecutive pair of path nodes), checkPotential_sound. Per run the Lean longest-path DP over networkx's topological order produces the certificate, Lean checks it and compares the reported path's weight with the optimum, for the original graph and for re-weighted copies (the what-if workflow); the reported edge and event sets are compared with the path; an independent memoised DFS in Python cross-checks.",
+    note=TB + "Translation-validation style use of a proved checker: the optimisation algorithm itself (networkx) is not modelled. The makespan clause is checked on unmodified graphs only.",
+    technique="Lean 4 proof of a certificate checker (potential function / telescoping) + per-run validation of networkx's answer",
+    design="7/C09"),
+  "C10": dict(
+    text="Lean 4 theorems over the breakdown model on top of the C08 graph model: C10_rows_one_per_critical_edge, C10_durations_sum_to_path_weight, C10_boundBy_delay / C10_boundBy_span (bound-by class from edge type and attributed event: host thread -> cpu_bound, communication kernel -> gpu_communication_bound, other device activity -> gpu_compute_bound), C10_class_sums_total (per-class sums add up to the total, so the percentages to 100), C10_attribution_recorded / C10_attribution_rule (kernel-kernel delay -> preceding kernel; span edge -> source event for a start node, destination event when both are end nodes, recorded parent otherwise). Tied to get_critical_path_breakdown, summary and get_event_attribution_for_edge (all edges, not only critical ones) by a differential run; that the attributed event of a span edge lies on the same thread/stream and covers the edge's time range is checked per run by the Python oracle.",
+    note=TB + "Partial: the covering clause (attributed event's span contains the edge's time range) is established per run by the oracle, not by a theorem; the reported path is the implementation's (C09).",
+    technique="Lean 4 proof (list/fold lemmas, case analysis) + model/implementation correspondence",
+    design="7/C10"),
   "C11": dict(
     text="Lean 4 theorems over a model that keeps the list and the dictionary side by side as the class does: C11_inv_reachable (every reachable table is duplicate-free and the dictionary is exactly the inverse of the list), C11_ids_stable / C11_decode_stable (append-only: an assigned id never changes), C11_decode_encode, C11_reencode_correct (every rank's local ids re-encode to global ids that decode to the same strings), C11_global_any_order (for every permutation of the ranks' local tables the global table is a bijection on exactly the union of the vocabularies), C11_numbering_free. Tied to TraceSymbolTable by op sequences with repeats, to multi-rank parsing (sequential and pooled, with worker completion orders forced by injected delays) by the recorded sequence of local tables, and to hash-seed / pool independence by re-running a battery of eight analyses in subprocesses under other PYTHONHASHSEED values.",
     note=TB + "Partial for the scheduling clause: Pool.map's ordering guarantee is trusted, OS scheduling is not modelled, completion orders are forced for <= 3 ranks only. The manager-queue variant add_symbols_mp is checked for bijection, prefix stability and content only.",
